@@ -186,6 +186,62 @@ def extract_tests(src: str) -> tuple[str, int]:
     return ast.unparse(tree) + "\n", tr.count
 
 
+class _InlineTemps(ast.NodeTransformer):
+    """`v = E` immediately followed by a simple statement that reads `v` exactly once (and nothing else reads it) ->
+    the statement with E in place of v.  Only for call-free or single-call E in return/assign/expr statements."""
+
+    def __init__(self, every=2):
+        self.i = 0
+        self.every = every
+        self.count = 0
+
+    def visit_FunctionDef(self, fn):
+        self.generic_visit(fn)
+        uses = {}
+        for n in ast.walk(fn):
+            if isinstance(n, ast.Name):
+                uses[n.id] = uses.get(n.id, 0) + 1
+            elif isinstance(n, (ast.Nonlocal, ast.Global)):
+                for nm in n.names:
+                    uses[nm] = 99
+        for blk in ast.walk(fn):
+            for fld in ("body", "orelse", "finalbody"):
+                seq = getattr(blk, fld, None)
+                if not (isinstance(seq, list) and len(seq) >= 2 and isinstance(seq[0], ast.stmt)):
+                    continue
+                i = 0
+                while i < len(seq) - 1:
+                    a, b = seq[i], seq[i + 1]
+                    if isinstance(a, ast.Assign) and len(a.targets) == 1 and isinstance(a.targets[0], ast.Name) \
+                            and isinstance(b, (ast.Return, ast.Assign, ast.Expr)) and uses.get(a.targets[0].id, 0) == 2 \
+                            and not isinstance(a.value, (ast.Lambda, ast.ListComp, ast.GeneratorExp, ast.Yield, ast.Await)):
+                        v = a.targets[0].id
+                        reads = [x for x in ast.walk(b) if isinstance(x, ast.Name) and x.id == v and isinstance(x.ctx, ast.Load)]
+                        first_names = [x for x in ast.walk(b) if isinstance(x, (ast.Name, ast.Call))]
+                        if len(reads) == 1:
+                            self.i += 1
+                            if self.i % self.every == 0:
+                                # substitute only when v is evaluated before any call of b (keeps evaluation order)
+                                order = [x for x in ast.walk(b) if isinstance(x, ast.Call)]
+                                if not order or all(any(r is y for y in ast.walk(c)) for c in order for r in reads):
+                                    class Sub(ast.NodeTransformer):
+                                        def visit_Name(s_, node):
+                                            return ast.copy_location(a.value, node) if node is reads[0] else node
+                                    seq[i + 1] = Sub().visit(b)
+                                    del seq[i]
+                                    self.count += 1
+                                    continue
+                    i += 1
+        return fn
+
+
+def inline_temps(src: str) -> tuple[str, int]:
+    tree = ast.parse(src)
+    tr = _InlineTemps()
+    tree = ast.fix_missing_locations(tr.visit(tree))
+    return ast.unparse(tree) + "\n", tr.count
+
+
 def unparse_only(src: str) -> str:
     """normalise formatting through ast.unparse (quotes, parentheses, line breaks change; semantics do not)"""
     return ast.unparse(ast.parse(src)) + "\n"
@@ -216,6 +272,9 @@ def neutral_variants(root: pathlib.Path):
         new, n = extract_tests(src)
         if n >= 3:
             out.append((f"extract-test-variable:{rel}", {rel: new}))
+        new, n = inline_temps(src)
+        if n >= 3:
+            out.append((f"inline-temporaries:{rel}", {rel: new}))
     return out
 
 
